@@ -174,6 +174,22 @@ def _draw(rs, n):
     return np.round(lo + (hi - lo) * rs.random_sample(n), 3)
 
 
+def on_arctan2_cut(node, env):
+    """True when some arctan2(a, b) node of the tree is evaluated on its branch cut (a == 0, b < 0) at the point: the
+    result there depends on the sign of a floating-point zero, which is not part of the specification"""
+    import numpy as np
+    for c in node.get('c', []):
+        if on_arctan2_cut(c, env):
+            return True
+    if node.get('t') == 'bin' and node.get('f') == 'arctan2':
+        with np.errstate(all='ignore'):
+            a, _ = ev(node['c'][0], env)
+            b, _ = ev(node['c'][1], env)
+        a, b = np.broadcast_arrays(np.asarray(a, dtype=float), np.asarray(b, dtype=float))
+        return bool(np.any((np.abs(a) <= 1e-12) & (b < 0)))
+    return False
+
+
 def choose_point(rec, shapes, rs):
     """{var: ndarray of its shape} satisfying the constraints elementwise (scalars are shared by all elements), or None"""
     import numpy as np
@@ -455,6 +471,10 @@ def _worker(jobs):
         if not pts:
             out.append({'i': i, 'cfg': cfg, 'skip': 'no point satisfies the domain constraints'})
             continue
+        envs = [{v: (a.reshape(()) if a.size == 1 else a) for v, a in pt.items()} for pt in pts]
+        if any(on_arctan2_cut(rec['e'], {v: (float(a) if a.ndim == 0 else a) for v, a in e_.items()}) for e_ in envs):
+            out.append({'i': i, 'cfg': cfg, 'skip': 'a point on the branch cut of arctan2'})
+            continue
         if cfg.get('col') and len(pts) >= 2 and seed % 2 == 0:
             # the sparsity of the automatic coloring is sampled at the first linearization: let one variable be exactly 0
             # there (where the domain allows it), so that partials proportional to it vanish at that point only
@@ -598,7 +618,8 @@ def pred_stale_sparsity(scn, info):
                 d0, _ = ev(rec['d'][x], {v: (float(a) if a.ndim == 0 or a.size == 1 and False else a) for v, a in moved.items()})
                 d1, _ = ev(rec['d'][x], {v: a for v, a in later.items()})
                 d0, d1 = np.broadcast_arrays(np.asarray(d0, dtype=float), np.asarray(d1, dtype=float))
-                if np.any((d0 == 0.0) & (d1 != 0.0)):
+                # (zero, or of higher order in the moved entries: numerically negligible where the sparsity is sampled)
+                if np.any((np.abs(d0) <= 1e-15) & (d1 != 0.0)):
                     return True
         return False
     except Exception:
